@@ -28,11 +28,19 @@ type MultiLinScenario struct {
 var multiLinOps = []struct{ Op, G string }{
 	{"Merge", "Merge"}, {"Merge", "MergeWith"}, {"Merge", "MergeAll"}, {"CombineLatest", "CombineLatest2"}, {"CombineLatest", "CombineLatestWith"}, {"CombineLatest", "CombineLatestAny"},
 	{"Zip", "Zip2"}, {"Zip", "ZipWith"}, {"Race", "Race"}, {"Race", "RaceWith"}, {"TakeUntil", "TakeUntil"}, {"SkipUntil", "SkipUntil"},
-	{"BufferWhen", "BufferWhen"}, {"SampleWhen", "SampleWhen"}, {"ThrottleWhen", "ThrottleWhen"},
+	{"BufferWhen", "BufferWhen"}, {"SampleWhen", "SampleWhen"}, {"ThrottleWhen", "ThrottleWhen"}, {"WindowWhen", "WindowWhen"},
 }
+
+// OnlyMultiLinOp restricts the generator to one Go constructor (drive-multilin -op)
+var OnlyMultiLinOp string
 
 func GenMultiLin(r *rand.Rand) MultiLinScenario {
 	o := multiLinOps[r.Intn(len(multiLinOps))]
+	for _, x := range multiLinOps {
+		if x.G == OnlyMultiLinOp {
+			o = x
+		}
+	}
 	sc := MultiLinScenario{Op: o.Op, G: o.G, K: 2, Unsub: r.Intn(5) == 0, Victim: r.Intn(2)}
 	for s := 0; s < sc.K; s++ {
 		sc.Lens = append(sc.Lens, 2+r.Intn(2))
@@ -85,8 +93,23 @@ func RunMultiLinPre(lg *rec.Log, sc MultiLinScenario, seed int64, pk *rec.Parker
 	if err != nil {
 		panic(err)
 	}
+	nwin := 0 // windows handed to the observer (its callbacks are serialized)
 	obs := ro.NewObserverWithContext(
-		func(ctx context.Context, v any) { lg.Add(rec.Ev{E: "recv", K: "N", V: encOut(v)}) },
+		func(ctx context.Context, v any) {
+			if w, ok := v.(ro.Observable[any]); ok {
+				// higher-order output (WindowWhen), flattened as in MultiDef: N(1000+j) window j handed over, I(100j+v) value v in window j, IC(j) / IE(j) its terminal
+				nwin++
+				j := nwin
+				lg.Add(rec.Ev{E: "recv", K: "N", V: 1000 + j})
+				w.SubscribeWithContext(ctx, ro.NewObserverWithContext(
+					func(ctx context.Context, x any) { lg.Add(rec.Ev{E: "recv", K: "I", V: 100*j + x.(int)}) },
+					func(ctx context.Context, err error) { lg.Add(rec.Ev{E: "recv", K: "IE", V: j}) },
+					func(ctx context.Context) { lg.Add(rec.Ev{E: "recv", K: "IC", V: j}) },
+				))
+				return
+			}
+			lg.Add(rec.Ev{E: "recv", K: "N", V: encOut(v)})
+		},
 		func(ctx context.Context, err error) { lg.Add(rec.Ev{E: "recv", K: "E"}) },
 		func(ctx context.Context) { lg.Add(rec.Ev{E: "recv", K: "C"}) },
 	)
